@@ -21,7 +21,8 @@ VARIANTS = [
     "send() stalls",
     "protocol 47: keep-alive + Set Compression in one burst",
     "unexpected-frame oracle",
-    "disconnect() called by an ordinary outgoing listener from inside the write pass"
+    "disconnect() called by an ordinary outgoing listener from inside the write pass",
+    "forced writes that fail half-way through serialisation"
 ]
 RUNS = {'quick': 7000, 'thorough': 400000}
 WALL_CAP = {'quick': 150, 'thorough': 3000}
@@ -198,6 +199,15 @@ def scenario_for(seed, index, tier, _random_only=False):
         slow_out = {'tags': sorted(rng.sample(all_tags, min(
             len(all_tags), rng.choice([1, 2])))),
             'us': rng.choice([1000, 200000, 8000000, 40000000])}
+    rb = make_rng('bad-write', ID, seed, index)
+    if not big and rb.random() < 0.15:
+        # a forced write that fails half-way through its serialisation (a
+        # field was never given a value): the caller gets the exception,
+        # nothing of that packet reaches the wire, later packets are whole
+        for _ in range(rb.choice([1, 2])):
+            ops = threads[rb.randrange(len(threads))]
+            ops.insert(rb.randrange(len(ops) + 1), ['b', tag, 0])
+            tag += 1
     quit_on = None
     rq = make_rng('quit', ID, seed, index)
     if not big and second is None and slow_out is None and \
@@ -206,7 +216,10 @@ def scenario_for(seed, index, tier, _random_only=False):
         # outgoing listener calls disconnect() when it sees one particular
         # packet - from inside the write pass (queued packet) or the forced
         # write that sent it, with the write lock held
-        quit_on = rq.choice([t for ops in threads for _k, t, _s in ops])
+        quit_on = rq.choice([t for ops in threads for k_, t, _s in ops
+                             if k_ != 'b'] or [None])
+        if quit_on is None:
+            disc = {'by': 'coord', 'immediate': False}
         disc = {'by': 'listener', 'immediate': False}
     return {
         'quit_on': quit_on,
@@ -514,6 +527,13 @@ def execute(scenario, tape):
                         st['writers_done'] += 1
                         return
                     for kind, tag, size in psc['threads'][k]:
+                        if kind == 'b':
+                            r = w.api('write-bad-%d' % tag, conn.write_packet,
+                                      serverbound.play.PluginMessagePacket(
+                                          channel='dst', data=None),
+                                      force=True)
+                            st.setdefault('bad', []).append(r.ok)
+                            continue
                         pkt = serverbound.play.PluginMessagePacket(
                             channel='dst', data=struct.pack('>I', tag) +
                             filler(tag, size))
